@@ -19,6 +19,10 @@ Packing (`Sqfs/Spec/PackSpec.lean`, `Sqfs/Model/PackCur.lean`), stateful:
         the export table as dir_writer.c builds and writes it (`Sqfs/Model/C17Export.lean`: array of capacity 512 that
         doubles, 0xFF fill, root = last pair, `sqfs_write_table` into a file that already holds <off> bytes; the
         metadata compressor is the `cmp` table): <start> = export_table_start, <file-hex> = the bytes appended
+  number <k> <tok>…                                  → <N> <root> <n|-> …
+        inode numbering of Sqfs/Model/Numbering.lean (`alloc_inode_num_dfs`, root last) for the tree whose root has the
+        k children described in pre-order by the tokens `f` (any non-directory inode), `h` (hard-link entry), `d<m>`
+        (directory followed by its m children); answer: inode count, then the numbers in the same pre-order (root first)
   sorttree <fix|cur> <nf> <path-hex>×nf <nl> <line-hex>×nl <matchbits|->
         `fstreeSortFiles` of Sqfs/Model/C17SortTree.lean on an fstree_t whose fs->files are these paths (split at '/');
         same answer format as `sort`
@@ -136,6 +140,28 @@ def opSortTree (terminate : Bool) (paths lines : List (List UInt8)) (bits : Stri
       | .ok r =>
         if r.fs.files.map Sqfs.FsTree.joinPath != r.attrs.map (·.path) then "err files-and-attrs-out-of-step"
         else "ok" ++ String.join (r.attrs.map (fun f => s!" {toHexFast f.path}:{showInt f.priority}:{f.flags}"))
+
+/-- `k` sibling trees from the token list (pre-order, `d<m>` = directory with `m` children) -/
+partial def parseTrees : Nat → List String → Option (List Sqfs.Numbering.Tree × List String)
+  | 0, rest => some ([], rest)
+  | _ + 1, [] => none
+  | k + 1, tok :: rest =>
+    let one : Option (Sqfs.Numbering.Tree × List String) :=
+      if tok = "f" then some (.file, rest)
+      else if tok = "h" then some (.hlink, rest)
+      else if tok.startsWith "d" then
+        match (tok.drop 1).toNat? with
+        | some m => (parseTrees m rest).map (fun r => (Sqfs.Numbering.Tree.dir r.1, r.2))
+        | none => none
+      else none
+    match one with
+    | none => none
+    | some (t, rest') => (parseTrees k rest').map (fun r => (t :: r.1, r.2))
+
+partial def showNums : Sqfs.Numbering.NTree → List String
+  | .file n => [toString n]
+  | .hlink => ["-"]
+  | .dir n cs => toString n :: cs.flatMap showNums
 
 structure St where
   B : Nat := 0
@@ -269,6 +295,15 @@ def step (s : St) (line : String) : St × String :=
           (s, s!"ok {f.2} {toHexFast f.1}")
       else (s, "bad-op")
     | _, _, _ => (s, "bad-op")
+  | "number" :: k :: rest =>
+    match k.toNat? with
+    | some k =>
+      match parseTrees k rest with
+      | some (cs, []) =>
+        let r := Sqfs.Numbering.numberRoot cs
+        (s, " ".intercalate (toString r.2 :: showNums r.1))
+      | _ => (s, "bad-op")
+    | none => (s, "bad-op")
   | "sorttree" :: m :: nf :: rest =>
     match mode? m, nf.toNat? with
     | some t, some nf =>
